@@ -405,7 +405,10 @@ impl NetcodeServer {
                 packet.packet_type()
             );
 
-            client.last_packet_received_time = self.current_time;
+            // Connection requests are not authenticated, they cannot refresh the timeout
+            if !matches!(packet, Packet::ConnectionRequest { .. }) {
+                client.last_packet_received_time = self.current_time;
+            }
             match client.state {
                 ConnectionState::Connected => match packet {
                     Packet::Disconnect => {
@@ -450,7 +453,10 @@ impl NetcodeServer {
                 Some(&pending.receive_key),
                 Some(&mut pending.replay_protection),
             )?;
-            pending.last_packet_received_time = self.current_time;
+            // Connection requests are not authenticated, they cannot refresh the timeout
+            if !matches!(packet, Packet::ConnectionRequest { .. }) {
+                pending.last_packet_received_time = self.current_time;
+            }
             log::trace!("Received packet from pending client ({}): {:?}", addr, packet.packet_type());
             match packet {
                 Packet::ConnectionRequest {
